@@ -6,7 +6,11 @@ src, sid, check, detected, note = sys.argv[1:6]
 dst = os.path.join(os.path.dirname(os.path.dirname(os.path.abspath(__file__))), "seeded", sid)
 os.makedirs(dst, exist_ok=True)
 for f in os.listdir(src):
-    if f != "meta.json":
+    if f == "meta.json":
+        continue
+    if os.path.isdir(os.path.join(src, f)):
+        shutil.copytree(os.path.join(src, f), os.path.join(dst, f), dirs_exist_ok=True)
+    else:
         shutil.copy2(os.path.join(src, f), os.path.join(dst, f))
 m = {}
 mp = os.path.join(src, "meta.json")
